@@ -270,7 +270,7 @@ let c20 zh tys data =
   let (r, a) = view_deserialize_a zh t bs in
   let len = n_of_int (List.length bs) in
   Printf.sprintf "res=%s malloc=%s bound=%s" (match r with OK _ -> "OK" | Err -> "ERR" | Panic -> "PANIC")
-    (hn a) (hn (N.add (N.mul (perbyte t) len) (foot t)))
+    (hn a) (hn (N.add (N.mul (N.mul (n_of_int 2) (perbyte t)) len) (foot t)))
 
 let dispatch set_cfg cur_h cur_zh (op : string) (args : string list) : string =
   match op, args with
